@@ -168,6 +168,12 @@ fn main() {
                         cases.push(Case { lens: vec![a, b], nofinal, crlf });
                     }
                 }
+                // every first-line length x a menu of second lines (the second line sees every buffer phase)
+                for a in 17..=(if thorough { 600 } else { 300 }) {
+                    for &b in &[1usize, 17, 64, 128, 129, 200, 256, 257, 300] {
+                        cases.push(Case { lens: vec![a, b], nofinal, crlf });
+                    }
+                }
                 let l3: &[usize] = if thorough { &[1, 17, 33, 64, 127, 128, 129, 200, 255, 256, 257, 300, 513] } else { &[1, 17, 64, 128, 129, 255, 257, 300, 513] };
                 for &a in l3 {
                     for &b in l3 {
